@@ -132,6 +132,32 @@ HISTORY = {
     "C28-relink-only-if-replaced": "MISSED at first: no nested mutation sites in a single-node field -> four menu items",
     "C24-receiver-chain-root": "MISSED at first: no isinstance/len assertion on a field -> Node class in the nested corpus",
     "C12-clone-drops-dirty-state": "caught outright",
+    "C23-scalar-render-lru-cache": "caught outright",
+    "C14-singleton-front-distance": "caught outright",
+    "C21-kill-map-skips-raising-tests": "caught outright",
+    "C05-predicate-callbacks-no-finally": "caught outright",
+    "C03-second-trybegin-not-split": "caught outright",
+    "C02-pop-top-never-starts-line": "caught outright",
+    "C19-export-dedup-per-function": "MISSED at first: no value that changes and comes back (A -> B -> A) -> call "
+                                     "sequences on one stateful object (corpus/stateful.py)",
+    "C35-branchless-carry-over-covered": "MISSED at first: no two branch-less code objects starting on one line -> two "
+                                         "lambdas in one tuple literal (corpus/lambdas.py)",
+    "C32-proxy-exit-stops-unconditionally": "not a C32 violation in the words of C32 (nothing is ADDED to later results; a "
+                                            "later result is LOST): reported by the C30 check, which owns that clause "
+                                            "(checks.txt = C32 C30)",
+    "C07-root-test-visited-after-recursion": "MISSED at first: no SEND loop below a branch -> two static seeds (await / "
+                                             "yield from below a branch); the quick tier now includes the static seeds",
+    "C16-static-constants-set-of-paths": "MISSED at first: the module under test was never inside a package -> package "
+                                         "cells (sibling modules with constants)",
+    "C31-reap-before-recv": "MISSED at first: no result larger than a pipe buffer -> equalish.blob (128 KiB string)",
+    "C09-cleanse-on-accumulated-lines": "MISSED, still not reported: needs three test statements on one stateful object "
+                                        "(mutate, read, mutate) with a method whose implicit return None sits on the "
+                                        "mutation line - outside the two-call test case and the method-free fragment of "
+                                        "the C09 harness (the side notes of this seeder led to a genuine slicer defect, "
+                                        "see known_findings C09-subscript-store-no-definition)",
+    "C11-merge-memo-by-id": "MISSED, still not reported: a memo keyed by id() of dead results - manifests only through "
+                            "CPython's address reuse (allocator-dependent, the seeder's own demonstration fails in ~88 % "
+                            "of its rounds); the harness keeps every result alive for the whole exploration",
 }
 
 
